@@ -2,15 +2,16 @@ function samlangGeneratedWebAssemblyLoader(bytes, builtinsPatch = () => ({})) {
   const codeModule = new WebAssembly.Module(bytes);
   let instance = null;
 
-  // Convert a WASM GC string array to a JavaScript string using exported helpers
+  // Convert a WASM GC string array (the UTF-8 bytes of the string) to a JavaScript string
+  // using exported helpers
   function gcArrayToString(arr) {
     if (!instance) throw new Error('Instance not initialized');
     const len = instance.exports.__strLen(arr);
-    const codes = [];
+    const bytes = new Uint8Array(len);
     for (let i = 0; i < len; i++) {
-      codes.push(instance.exports.__strGet(arr, i));
+      bytes[i] = instance.exports.__strGet(arr, i);
     }
-    return String.fromCharCode(...codes);
+    return new TextDecoder().decode(bytes);
   }
 
   const builtins = {
